@@ -23,6 +23,19 @@ fn main() {
         }
         return;
     }
+    if args.first().map(|s| s.as_str()) == Some("dump-rust") {
+        let text = std::fs::read_to_string(&args[1]).expect("file");
+        let src = expansion::generated_source(&text).expect("generated");
+        println!("{src}");
+        if args.get(2).is_some() {
+            for e in expansion::expand_source(&src).expect("expand") {
+                if Some(&e.name) == args.get(2) {
+                    println!("write order: {:?}", expansion::write_order(&e.text));
+                }
+            }
+        }
+        return;
+    }
     let ctx = vcore::harness::Ctx::from_args(&args);
     let code = match ctx.prop.as_str() {
         "C07" => c07::run(ctx),
